@@ -12,6 +12,17 @@ CHECKS = {
         design="4/C10"),
 }
 
+CHECKS["C01"] = dict(
+    text="Coq theorems: both lexer models are total on every code-point list (never crash, fuel never exhausted) and an escape is only accepted when all its characters exist; tied to the code by exhaustive lexer correspondence on short strings; parser entry points, graphql_sync with hostile variables/operation names/raising resolvers are explored directly against the response-format predicate",
+    note="lexers modelled and proved; parser/validation/execution totality is explored on the implementation, not proved (parser not modelled); Exception subclasses only; nesting <= 100",
+    technique="Coq proof (lexer totality) + extraction-based correspondence + direct totality search",
+    design="4/C01")
+CHECKS["C09"] = dict(
+    text="Coq theorems: the lexer model (written from the lexical grammar) tiles every accepted source into ignored-only gaps and non-empty lexemes with ordered, disjoint, in-bounds spans; the implementation's character-class/punctuator/ignored/line-terminator tables are re-swept on every run and proved equal to the specification's; implementation lexer = model on all short strings and generated sources (kinds, spans, values, lines/columns, reject positions); strip/insert/token-limit laws checked directly",
+    note="lexer modelled and proved; strip_ignored_characters, parser independence of layout and the token limit law are metamorphic checks on the implementation (parser not modelled)",
+    technique="Coq proof (lexer spans, regenerated table obligations) + extraction-based correspondence + metamorphic checks",
+    design="4/C09")
+
 NOT_YET = {}
 
 
